@@ -435,3 +435,11 @@ mod test {
         assert_eq!(next.len(), 6);
     }
 }
+
+#[cfg(fidget_verif)]
+impl<const N: usize> VmData<N> {
+    /// Verification hook: borrows the inner SSA tape
+    pub fn verif_ssa(&self) -> &SsaTape {
+        &self.ssa
+    }
+}
